@@ -253,6 +253,10 @@ class RunContext:
         evdir.mkdir(exist_ok=True)
         if REPO == Path('/repo') or os.environ.get('VERIF_WRITE_EVIDENCE'):
             (evdir / f'{self.prop}.json').write_text(json.dumps(ev, indent=1, sort_keys=True, ensure_ascii=False) + '\n')
+            if self.tier == 'thorough':
+                # kept beside the evidence of the last run, which a later quick run overwrites
+                (evdir / 'thorough').mkdir(exist_ok=True)
+                (evdir / 'thorough' / f'{self.prop}.json').write_text(json.dumps(ev, indent=1, sort_keys=True, ensure_ascii=False) + '\n')
         for k in known_hits.values():
             print(f"KNOWN-FINDING: property={self.prop} {k['signature']} :: {k.get('what', '')}")
         if os.environ.get('VERIF_DEBUG'):
